@@ -178,6 +178,15 @@ class Gen:
             return 'b' + '0' * n
         if r < 0.2:
             return 'b' + '1' * n
+        if r < 0.32 and n > 8:
+            # whole chunks (or the tail / the head) of zero bits between random ones
+            z = self.rng.choice([256, 256, 512, n // 2, 8])
+            body = ''.join(self.rng.choice('01') for _ in range(n))
+            if self.rng.random() < 0.6:
+                keep = (n - 1) // z * z if n > z else 0     # zero from the last multiple of z on
+                keep = min(keep, n - 1)
+                return 'b' + body[:keep] + '0' * (n - keep)
+            return 'b' + '0' * min(z, n) + body[min(z, n):]
         return 'b' + ''.join(self.rng.choice('01') for _ in range(n))
 
     def bytez(self, n):
@@ -186,6 +195,9 @@ class Gen:
             return 'x' + '00' * n
         if r < 0.2:
             return 'x' + 'ff' * n
+        if r < 0.3 and n > 32:
+            keep = (n - 1) // 32 * 32     # the last chunk all zero
+            return 'x' + bytes(self.rng.getrandbits(8) for _ in range(keep)).hex() + '00' * (n - keep)
         return 'x' + bytes(self.rng.getrandbits(8) for _ in range(n)).hex()
 
     def val(self, t, budget=70):
@@ -889,7 +901,8 @@ class StoreGen:
                 self.views[i]['kids'] = True
                 self.views.append(dict(t=ct, v=cv, hook=(i, key), kids=False))
                 kt = kind(self.views[i]['t'])
-                ops.append(r.choice(['childs', 'childi']) if kt in ('vec', 'list') and r.random() < 0.5 else 'child')
+                ops.append(r.choice(['childs', 'childi', 'childn']) if kt in ('vec', 'list') and r.random() < 0.55 else
+                           'childn' if kt == 'cont' and r.random() < 0.25 else 'child')
                 ops[-1] = [ops[-1], i, key]
             elif c < 0.30 and len(self.views) >= 2:
                 # assign a held child view as the value of another position (a copy of the value: the
